@@ -12,11 +12,14 @@ DT = {0: torch.float32, 1: torch.float64}
 EPS32 = float(np.finfo(np.float32).eps)
 
 
-def build(path, buf_dt):
-    """module (or callable) for a dtype path, built with buffers of dtype buf_dt, plus an input maker"""
+def build(path, buf_dt, capture=None):
+    """module (or callable) for a dtype path, built with buffers of dtype buf_dt, plus an input maker;
+    with `capture` (a list) the modules under test are appended to it and left in the dtype they were built in"""
     from pytorch_wavelets import DWTForward, DWTInverse, DWT1DForward, DWT1DInverse, DTCWTForward, DTCWTInverse, ScatLayer, ScatLayerj2
     from pytorch_wavelets.dwt.transform2d import SWTForward
     conv = (lambda m: m.double()) if buf_dt == torch.float64 else (lambda m: m.float())
+    if capture is not None:
+        conv = lambda m: (capture.append(m), m)[1]
 
     def helper(ctor):
         # analysis helper that only produces a pyramid to feed the inverse under test: always exact float64 taps
@@ -99,8 +102,24 @@ def dtype_cases(ck):
                     yield rt.Case('Z', 'dtype_path', [p, x, b, d], [], {'path': p, 'x': x, 'buf': b, 'default': d}, impl=impl)
 
 
-def oracle_accuracy(ck, path, dyn):
-    """float32 result vs float64 result against eps32 * (gain * max|x| + bias)"""
+def acc_input(path, dyn, xseed, shape):
+    x = np.random.default_rng(xseed).standard_normal(shape) * dyn
+    x[..., 0] *= 1e3            # large dynamic range inside one tensor
+    return x
+
+
+def iso_job(args):
+    """runs inside harness.iso_worker: the float64 result of one path in a process where nothing else has run"""
+    torch.set_default_dtype(torch.float64)
+    c64, shape, _ = build(args['path'], torch.float64)
+    x = acc_input(args['path'], args['dyn'], args['xseed'], shape)
+    with torch.no_grad():
+        return [t.numpy() for t in flat(c64(torch.tensor(x, dtype=torch.float64)))]
+
+
+def oracle_accuracy(ck, path, dyn, xseed=0, iso=None):
+    """float32 result vs float64 result against eps32 * (gain * max|x| + bias); the float64 result must also be
+    the one a process that never saw float32 computes (to 1e-12)"""
     old = torch.get_default_dtype()
     try:
         torch.set_default_dtype(torch.float64)
@@ -109,13 +128,23 @@ def oracle_accuracy(ck, path, dyn):
         c32, _, _ = build(path, torch.float32)
     finally:
         torch.set_default_dtype(old)
-    x = ck.nprng.standard_normal(shape) * dyn
-    x[..., 0] *= 1e3            # large dynamic range inside one tensor
+    x = acc_input(path, dyn, xseed, shape)
     x64 = torch.tensor(x, dtype=torch.float64); x32 = x64.float()
     desc = 'float32 accuracy path=%d shape=%s dynamic range %g' % (path, tuple(shape), dyn)
-    replay = {'oracle': 'accuracy', 'path': path, 'dyn': dyn}
+    replay = {'oracle': 'accuracy', 'path': path, 'dyn': dyn, 'xseed': xseed}
     with torch.no_grad():
-        y64 = flat(c64(x64)); y32 = flat(c32(x32))
+        if ck.rng.random() < 0.5:
+            y32 = flat(c32(x32)); y64 = flat(c64(x64))
+        else:
+            y64 = flat(c64(x64)); y32 = flat(c32(x32))
+    if iso is not None and not (isinstance(iso, tuple) and iso and iso[0] == 'error'):
+        if len(iso) != len(y64) or any(tuple(a.shape) != tuple(b.shape) for a, b in zip(y64, iso)):
+            ck.fail(desc + ': float64 outputs have other shapes than in an isolated float64-only process', replay); return 'shape'
+        for k, (a, b) in enumerate(zip(y64, iso)):
+            sc = max(1.0, float(np.max(np.abs(b))) if b.size else 1.0)
+            d = float(np.nanmax(np.abs(a.double().numpy() - b))) if b.size else 0.0
+            if not (d <= 1e-11 * sc):
+                ck.fail(desc + ': float64 output %d differs by %.3g (scale %.3g) from the same call in a process that only ever used float64: precision depends on the history' % (k, d, sc), replay); return 'history'
     if [o.dtype for o in y32] != [torch.float32] * len(y32) or [o.dtype for o in y64] != [torch.float64] * len(y64):
         ck.fail(desc + ': output dtypes %s / %s' % ([str(o.dtype) for o in y32][:3], [str(o.dtype) for o in y64][:3]), replay); return 'dtype'
     # gain = largest absolute row sum of the (linear part of the) operator, from unit impulses in float64
@@ -164,6 +193,35 @@ def oracle_convert(ck, path):
         ck.fail(desc + ': .double() of a float32-built module deviates by %.3g' % err, {'oracle': 'convert', 'path': path}); return 'diff'
     ck.oracle_ok(('convert', path), group='conversion', sample={'what': desc, 'double_vs_float_err': err})
     return None
+
+
+def oracle_convert_history(ck, path):
+    """one instance: call in the dtype it was built in, convert with .double() / .float(), call again: the second
+    result must be the one a freshly converted instance gives (bit for bit)"""
+    old = torch.get_default_dtype()
+    res = None
+    for build_dt, other in ((torch.float32, torch.float64), (torch.float64, torch.float32)):
+        try:
+            torch.set_default_dtype(build_dt)
+            mods, fresh = [], []
+            used, shape, _ = build(path, build_dt, capture=mods)
+            ref, _, _ = build(path, build_dt, capture=fresh)
+        finally:
+            torch.set_default_dtype(old)
+        x = torch.tensor(ck.nprng.standard_normal(shape) * 37.0, dtype=torch.float64)
+        desc = 'path=%d built in %s, called, converted to %s, called again' % (path, build_dt, other)
+        with torch.no_grad():
+            used(x.to(build_dt))
+            for m in mods + fresh:
+                m.double() if other == torch.float64 else m.float()
+            a = flat(used(x.to(other))); b = flat(ref(x.to(other)))
+        if any(o.dtype != other for o in a):
+            ck.fail(desc + ': output dtype %s' % [str(o.dtype) for o in a][:2], {'oracle': 'convert-history', 'path': path}); res = 'dtype'; continue
+        if len(a) != len(b) or not all(u.shape == v.shape and torch.equal(u, v) for u, v in zip(a, b)):
+            err = max(float((u.double() - v.double()).abs().max()) for u, v in zip(a, b)) if len(a) == len(b) else float('nan')
+            ck.fail(desc + ': differs from a freshly converted instance by %.3g (state kept from before the conversion)' % err, {'oracle': 'convert-history', 'path': path}); res = 'diff'; continue
+        ck.oracle_ok(('convert-history', path, str(build_dt)), group='conversion-history', sample={'what': desc})
+    return res
 
 
 def oracle_strided(ck, path):
@@ -220,10 +278,15 @@ def run(ck):
     ck.corr.append(st)
     old = torch.get_default_dtype()
     try:
+        jobs = [(path, dyn, ck.rng.getrandbits(31)) for path in range(12) for dyn in ([1.0, 1e4] if q else [1e-3, 1.0, 1e4, 1e6])]
+        isos = rt.iso_run([{'module': 'harness.props.c16', 'func': 'iso_job', 'args': {'path': p_, 'dyn': d_, 'xseed': s_}} for p_, d_, s_ in jobs])
+        ck.extra['isolated_process_references'] = {'computed': sum(1 for v in isos if not (isinstance(v, tuple) and v and v[0] == 'error')),
+                                                   'worker_errors': [v[1][-160:] for v in isos if isinstance(v, tuple) and v and v[0] == 'error'][:3]}
+        for (path, dyn, xs), iso in zip(jobs, isos):
+            rt.guard(ck, oracle_accuracy, ck, path, dyn, xs, iso)
         for path in range(12):
-            for dyn in ([1.0, 1e4] if q else [1e-3, 1.0, 1e4, 1e6]):
-                rt.guard(ck, oracle_accuracy, ck, path, dyn)
             rt.guard(ck, oracle_convert, ck, path)
+            rt.guard(ck, oracle_convert_history, ck, path)
             rt.guard(ck, oracle_strided, ck, path)
     finally:
         torch.set_default_dtype(old)
